@@ -318,7 +318,9 @@ fn check_multi(ctx: &mut Ctx, r: &mut Rng, what: &str, shape: &str, midx_path: &
             return;
         }
         Ok(Err(e)) => {
-            ctx.violation(&format!("{what}|open-fails"), &format!("multi_index::File::at failed: {e}"), witness);
+            // the class keeps the empty id set (a multi-pack index without any object) apart from every other refusal
+            let class = if sorted.is_empty() { "no-objects" } else { "with-objects" };
+            ctx.violation(&format!("{what}|open-fails|multi-index|{class}"), &format!("multi_index::File::at failed: {e}"), witness);
             return;
         }
         Ok(Ok(m)) => m,
